@@ -430,6 +430,28 @@ def run(ctx, model_ok, deep=False):
                 wrong = [files_[i][1] for n_, i in enumerate(od_) if not isinstance(got, list) or n_ >= len(got) or strip_(got[n_]) != strip_(files_[i][2])]
                 V("falsifier:cli-key2jwk-multi", "key2jwk given %d key files in one run (order: %s) does not convert each as it does alone (status %d; differing: %s)" % (
                     len(od_), " ".join(files_[i][1] for i in od_), rc, ", ".join(wrong[:4])), ["# key2jwk -q -o - " + " ".join(files_[i][1] for i in od_)])
+        # ---------------- a JWK Set of several keys with structured kids: jwk2key writes every key back -----------------
+        stem = "urn:example:tenant-0001:service-auth:signing-key:2026-09:region-eu-west-1"     # 73 characters
+        kidsets = [["primary", "secondary", "third"],
+                   [stem + ".primary", stem + ".secondary", stem + ".tertiary"],               # same first 64+ characters
+                   ["key:1", "key;1", "key 1", "key+1", "key_1", "key=1", "key@1", "key~1", "key,1"],   # differ in punctuation only
+                   ["K" * 64 + "a", "K" * 64 + "b", "K" * 64, "K" * 63],
+                   ["k" * n_ for n_ in (1, 2, 31, 32, 33, 63, 64, 65, 100, 127, 128, 129, 200)],
+                   ["éa", "éb", "èa"]]
+        for ks_ in kidsets:
+            keys_ = [os.urandom(32) for i_ in range(len(ks_))]       # same kind and size: only the kid tells the files apart
+            doc_ = {"keys": [{"kty": "oct", "kid": kid_, "k": K.b64u(kb_)} for kid_, kb_ in zip(ks_, keys_)]}
+            jf = os.path.join(d, "set.json")
+            open(jf, "wb").write(json.dumps(doc_).encode())
+            od = tempfile.mkdtemp(dir=d)
+            rc4, _, err4 = tool(ctx, "jwk2key", ["-d", od, jf])
+            ev += 1
+            distinct.add(("jwk2key-set", ks_[0][:8], len(ks_), rc4))
+            back = sorted(open(f_, "rb").read() for f_ in glob.glob(os.path.join(od, "*")))
+            if rc4 != 0 or back != sorted(keys_):
+                V("falsifier:cli-jwk2key-set", "jwk2key given a JWK Set of %d oct keys with distinct kids (%s ...) wrote back %d of them (status %d)" % (
+                    len(ks_), ", ".join(repr(k_[-12:]) for k_ in ks_[:3]), len([b_ for b_ in back if b_ in keys_]), rc4),
+                  ["# jwk2key -d OUT set.json   with set.json = " + json.dumps(doc_)[:600]], detail=err4.decode("latin-1")[-300:])
         ctx.notes.append("EC P-256 keys drawn: %d, with a leading-zero coordinate/private value: %d" % (n_ec, lead0))
         ctx.add_suite("cli", evaluations=ev, distinct_nontrivial=len(distinct),
                       rule="jwt-verify with 0..512 failing and 0..3 good tokens as arguments and on stdin; short vs long spelling of every documented option; jwt-generate -> jwt-verify per key type; key2jwk/jwk2key on fresh keys of every type (EC P-256 drawn until leading-zero values occur); distinct = (tool, case class, status)",
